@@ -9,6 +9,8 @@ type RCallGraph struct {
 }
 
 func NewRCallGraph() RCallGraph {
+	loopCount = 0
+	lastChild = ""
 	return RCallGraph{}
 }
 
